@@ -132,11 +132,12 @@ def r2_positions(chk: Check):
 def r3_generated_once(chk: Check):
     tree = chk.tree
     n = 0
+    sp0 = tree.func("core.objects", "ConfigInformation.seal.Sealer.postprocess")
     for f in tree.nontest_funcs():
         for c in fn_calls(f.node):
             if src(c.func) == "argument.generator" or (isinstance(c.func, ast.Attribute) and c.func.attr == "generator" and isinstance(c.func.value, ast.Name)):
                 n += 1
-                ok = f.key == "core.objects:ConfigInformation.seal.Sealer.postprocess"
+                ok = f.node is sp0.node
                 chk.require(ok, chk.fkey(f, "calls a generator"), f"`{f.qual}` calls a value generator; only the sealing walk may (once per configuration)", chk.loc(f.module, c))
     chk.min_instances(n, 2, "generator call sites")
     sp = tree.func("core.objects", "ConfigInformation.seal.Sealer.postprocess")
